@@ -246,6 +246,9 @@ def obj_vals(lay: dict, m: dict, obj) -> list:
 # Coq literals
 
 def coq_bytes(b: bytes) -> str:
+    # long flat list literals are slow to parse/type-check: chunk them
+    if len(b) > 96:
+        return '(' + ' ++ '.join('[' + ';'.join(str(x) for x in b[i:i + 64]) + ']' for i in range(0, len(b), 64)) + ')'
     return '[' + ';'.join(str(x) for x in b) + ']'
 
 
